@@ -1,49 +1,16 @@
 (* C13 (and the small arithmetic helpers of C03/C15) at code level: the straight-line functions
    of the REGENERATED GoLite program (Gen/Generated.v, printed from the Go source on every run)
-   compute what the hand-written model computes.  Statements only; proofs in GenStraightProofs.v.
+   compute what the hand-written model computes.  Statements only; proofs in GenStraightC13.v.
 
    Shape: for every fuel >= 1 and all arguments in the stated range,
    gen_call fuel "<pkg.Func>" <type argument> [args] = Val [model function args]. *)
 From Coq Require Import List ZArith String.
 From GS.Model Require Import Base Varint Arith Counter GoLite.
 From GS.Gen Require Import Generated.
-From GS.GenProofs Require Import GenLink GenStraightProofs.
+From GS.GenProofs Require Import GenLink GenStraightC13.
 Open Scope string_scope. Open Scope Z_scope.
 
 (* inclusion.RoundUpByMultipleOf(cursor, v int) *)
-Theorem gen_round_up_by_multiple_of : forall fuel c v, (1 <= fuel)%nat ->
-  0 <= c < 2^62 -> 0 < v < 2^62 ->
-  gen_call fuel "inclusion.RoundUpByMultipleOf" I64 [c; v] =
-  Val [Z.of_N (round_up_by_multiple_of (Z.to_N c) (Z.to_N v))].
-Proof. exact round_up_by_multiple_of_gen. Qed.
-Print Assumptions gen_round_up_by_multiple_of.
-
-(* v = 0 is a division by zero: a Go panic, for every cursor *)
-Theorem gen_round_up_by_multiple_of_zero : forall fuel c, (1 <= fuel)%nat ->
-  gen_call fuel "inclusion.RoundUpByMultipleOf" I64 [c; 0] = Flt.
-Proof. exact round_up_by_multiple_of_gen_zero. Qed.
-Print Assumptions gen_round_up_by_multiple_of_zero.
-
-Example gen_round_up_by_multiple_of_ex :
-  gen_call 1 "inclusion.RoundUpByMultipleOf" I64 [13; 4] = Val [16] /\
-  gen_call 1 "inclusion.RoundUpByMultipleOf" I64 [12; 4] = Val [12] /\
-  round_up_by_multiple_of 13 4 = 16%N /\
-  gen_call 1 "inclusion.RoundUpByMultipleOf" I64 [13; 0] = Flt.
-Proof. vm_compute. repeat split; reflexivity. Qed.
-
-(* inclusion.getMin[T constraints.Integer](i, j T): no arithmetic, so every type argument and all
-   values (in particular int and uint64 with in-range arguments) *)
-Theorem gen_get_min : forall fuel t i j, (1 <= fuel)%nat ->
-  gen_call fuel "inclusion.getMin" t [i; j] = Val [Z.min i j].
-Proof. exact get_min_gen. Qed.
-Print Assumptions gen_get_min.
-
-Example gen_get_min_ex :
-  gen_call 1 "inclusion.getMin" I64 [-3; 7] = Val [-3] /\
-  gen_call 1 "inclusion.getMin" U64 [18446744073709551615; 7] = Val [7].
-Proof. vm_compute. split; reflexivity. Qed.
-
-(* share.CompactSharesNeeded(sequenceLen uint32) int: every uint32 *)
 Theorem gen_compact_shares_needed : forall fuel n, (1 <= fuel)%nat -> 0 <= n < 2^32 ->
   gen_call fuel "share.CompactSharesNeeded" I64 [n] = Val [Z.of_N (compact_shares_needed (Z.to_N n))].
 Proof. exact compact_shares_needed_gen. Qed.
@@ -95,38 +62,6 @@ Example gen_available_bytes_wraps :
 Proof. vm_compute. split; reflexivity. Qed.
 
 (* square.IsPowerOfTwo[I constraints.Integer](input I) bool at int: every int64 except MinInt64 *)
-Theorem gen_is_power_of_two : forall fuel x, (1 <= fuel)%nat -> - 2^63 < x < 2^63 ->
-  gen_call fuel "square.IsPowerOfTwo" I64 [x] = Val [b2z (is_pow2 x)].
-Proof. exact is_power_of_two_gen_i64. Qed.
-Print Assumptions gen_is_power_of_two.
-
-(* ... and at MinInt64 the Go function answers true (input-1 wraps to MaxInt64, the AND is 0),
-   the unbounded model false: the range above is the exact agreement range on int64.
-   (NewBuilder tests maxSquareSize <= 0 first, so no caller reaches this input.) *)
-Theorem gen_is_power_of_two_min_int64 : forall fuel, (1 <= fuel)%nat ->
-  gen_call fuel "square.IsPowerOfTwo" I64 [- 2^63] = Val [1] /\ is_pow2 (- 2^63) = false.
-Proof. exact is_power_of_two_gen_i64_min. Qed.
-Print Assumptions gen_is_power_of_two_min_int64.
-
-(* at uint64: the whole type *)
-Theorem gen_is_power_of_two_u64 : forall fuel x, (1 <= fuel)%nat -> 0 <= x < 2^64 ->
-  gen_call fuel "square.IsPowerOfTwo" U64 [x] = Val [b2z (is_pow2 x)].
-Proof. exact is_power_of_two_gen_u64. Qed.
-Print Assumptions gen_is_power_of_two_u64.
-
-Example gen_is_power_of_two_ex :
-  gen_call 1 "square.IsPowerOfTwo" I64 [64] = Val [1] /\ is_pow2 64 = true /\
-  gen_call 1 "square.IsPowerOfTwo" I64 [96] = Val [0] /\
-  gen_call 1 "square.IsPowerOfTwo" I64 [0] = Val [0] /\
-  gen_call 1 "square.IsPowerOfTwo" I64 [-4] = Val [0] /\
-  gen_call 1 "square.IsPowerOfTwo" U64 [2^63] = Val [1].
-Proof. vm_compute. repeat split; reflexivity. Qed.
-
-(* share.CompactShareCounter methods.  Arguments: the receiver's fields
-   [lastShares; lastRemainder; shares; remainder]; results: the Go results followed by the
-   receiver's four fields after the call. *)
-
-(* Size() int: exact condition "shares + 1 fits int64 (or is never computed)" *)
 Theorem gen_counter_size : forall fuel ls lr sh r, (1 <= fuel)%nat ->
   r = 0 \/ - 2^63 <= sh + 1 < 2^63 ->
   gen_call fuel "share.CompactShareCounter.Size" I64 [ls; lr; sh; r] =
@@ -155,3 +90,4 @@ Example gen_counter_ex :
   gen_call 1 "share.CompactShareCounter.Remainder" I64 [1; 20; 3; 100] = Val [100; 1; 20; 3; 100] /\
   gen_call 1 "share.CompactShareCounter.Revert" I64 [1; 20; 3; 100] = Val [1; 20; 1; 20].
 Proof. vm_compute. repeat split; reflexivity. Qed.
+
